@@ -40,11 +40,12 @@ def run(tier):
         if x["kind"] in ("trait", "group"):
             e = (exp_t if x["kind"] == "trait" else exp_g)[x["name"]]
             for direction in ("got", "rev"):
+                via = " (root reaches the trait through a method returning an object of it)" if x.get("via") else ""
                 if e["expect"] == "Valid" and x[direction] != "Valid":
-                    c.violation("%s edit '%s' keeps the C-visible interface but comparing the layouts reports %s" % (x["kind"], x["name"], x[direction]),
+                    c.violation("%s edit '%s'%s keeps the C-visible interface but comparing the layouts reports %s" % (x["kind"], x["name"], via, x[direction]),
                                 {"edit": e, "observed": x})
                 if e["expect"] == "Invalid" and x[direction] == "Valid":
-                    c.violation("%s edit '%s' changes the C-visible interface but comparing the layouts reports Valid" % (x["kind"], x["name"]),
+                    c.violation("%s edit '%s'%s changes the C-visible interface but comparing the layouts reports Valid" % (x["kind"], x["name"], via),
                                 {"edit": e, "observed": x})
                 if e["expect"] == "Invalid" and x[direction] == "Unknown":
                     c.drift("edit '%s': reported Unknown where the model predicts Invalid (not Valid either way)" % x["name"])
